@@ -83,7 +83,7 @@ PROPS['C20'] = dict(
     assumptions=COMMON + ['tokens are well-formed numbers (numpy raises ValueError otherwise, which is also a rejection); str.split() yields L tokens',
                           'text formatting (to_ascii) and dict/pickle round trips are decided by the bounded run only'],
     explanation='E1: from_ascii accepts iff L = 3(n+1) with flags in {0,1,2,3,4,9}, EOFError iff L < 3, ValueError otherwise (both directions), and the column association of '
-                'name, coordinates, flags and (flux, error) pairs -- for every column count. The setters\\' validation code is executed as part of the caller (inlined). '
+                'name, coordinates, flags and (flux, error) pairs -- for every column count. The validation code of the setters is executed as part of the caller (inlined). '
                 'E2: exhaustive column counts for n <= 5/12, bad flags, formatted round trips.')
 
 EXTN = 'sedfitter.extinction.extinction.Extinction.'
